@@ -4,6 +4,7 @@ from ..terms import drop_lv, rebuild
 from .common import *
 from ..interp import proj
 from .removes import roles, TYPES
+from .loops import loops_of, item_filter, keep_table
 
 
 # ---------------------------------------------------------------- clock-expression normal form
@@ -124,6 +125,91 @@ def _entry_clock_match(x, r, sub, side):
     return bool(pp and pp[0] == side and pp[1] == (r['entries'],) and part == 'value' and tuple(s) == tuple(sub))
 
 
+def _ours_loop_form(ctx, facts, body, it, r, sub, name, props):
+    """our-only decision written as an explicit loop over self.entries (or produced from retain/filter by the 's' view)."""
+    for lp in loops_of(it):
+        if not lp.whole_over(1, (r['entries'],)):
+            continue
+        flt = item_filter(facts, it, lp, (r['entries'],))
+        if flt is None:
+            continue
+        kind, sites, vals = flt
+        pre = []
+
+        def atom(t):
+            if is_call(t, ('contains_key', 'contains')) and len(t[2]) == 2:
+                pp = param_path(t[2][0])
+                if pp and pp[0] == 2 and pp[1] == (r['entries'],):
+                    return 'theirs_has'
+            if t[0] == 'discr' and is_call(t[1], ('get', 'get_mut')) and len(t[1][2]) == 2:
+                pp = param_path(t[1][2][0])
+                if pp and pp[0] == 2 and pp[1] == (r['entries'],):
+                    return ('map', 'theirs_has', {True: 1, False: 0})
+            return None
+
+        def classify(a, b, t):
+            for x, y, orient in ((a, b, 'fwd'), (b, a, 'rev')):
+                px = param_path(x)
+                if px and px[0] == 2 and px[1] == (r['clock'],) and _entry_clock_match(y, r, sub, 1):
+                    pre.append(is_field_of_param(x, 2, (r['clock'],)))
+                    return ('drop', orient)
+            return None
+        table = {}
+        hits = set()
+        for has in (False, True):
+            tab, h = keep_table(facts, body, lp, kind, sites, lambda o, has=has: Evaluator(facts, classify=classify, bool_atom=atom,
+                                                                                      assumption={'theirs_has': has, 'drop': o}), PARTIAL)
+            hits |= h
+            for o, v in tab.items():
+                table[(has, o)] = v
+        det = {'table(theirs_has,ord(other.clock,entry clock)) -> (keep may, keep must)': {'%s,%s' % k: v for k, v in table.items()}}
+        line = block_line(it, lp.head)
+        if 'theirs_has' not in hits or 'drop' not in hits:
+            ctx.fail(name, body, 'the loop over our entries does not test presence in other.entries and compare other.clock with the entry clock '
+                     '(found atoms: %s)' % sorted(hits), line=line, details=det, props=props)
+            return True
+        errs = []
+        for o in (GT, EQ):
+            if table[(False, o)][0]:
+                errs.append('an entry only we have whose clock is covered by other.clock (%s) is kept: other has seen and removed it' % o)
+        for o in (LT, NONE):
+            if not table[(False, o)][1]:
+                errs.append('an entry only we have that other has not (fully) seen (%s) is dropped: a concurrent add is lost' % o)
+        for o in PARTIAL:
+            if not table[(True, o)][1]:
+                errs.append('an entry present on both sides is dropped by the one-sided loop')
+                break
+        if pre and not all(pre):
+            errs.append('the decision reads other.clock after it was modified')
+        ctx.check(not errs, name, body, 'dropped exactly under other.clock >= entry clock (loop form)', errs[0] if errs else '', line=line, details=det, props=props)
+        # kept clock = clock − other.clock
+        good = False
+        if kind == 'keep':
+            for vs in vals or []:
+                for v in vs:
+                    for alt in phi_alts(drop_lv(v)):
+                        cands = [alt]
+                        if alt[0] == 'tuple':
+                            cands = list(alt[1])
+                        for cnd in cands:
+                            clk = cnd
+                            for f in sub:
+                                clk = proj(clk, f)
+                            e = cexpr(clk)
+                            if e[0] == 'minus' and e[2] == leaf_param(2, (r['clock'],)) and e[1][0] == 'leaf' and _entry_clock_match(e[1][1], r, sub, 1):
+                                good = True
+        for bb, c2 in it.calls.items():
+            if bb in lp.blocks and call_name(c2.term) == 'reset_remove' and len(c2.args) == 2:
+                if _entry_clock_match(c2.args[0].val, r, sub, 1) and is_field_of_param(c2.args[1].val, 2, (r['clock'],)):
+                    rc = Reach(facts, body, Evaluator(facts, classify=classify, bool_atom=atom, assumption={'theirs_has': False, 'drop': LT}))
+                    if lp.must(rc, [bb]):
+                        good = True
+        ctx.check(good, name + '/subtract', body, 'kept entry clock = entry clock − other.clock',
+                  'the witness clock of a kept entry is not reduced by other.clock: dots other has seen and removed stay as witnesses', line=line, props=props)
+        return True
+    return False
+
+
 @rule('MERGE-DROP', {
     'C09': 'an entry the other side has seen and removed must be dropped, a stale entry must not be re-adopted (no resurrection)',
     'C04': 'an unseen add must survive the merge (add wins); a seen-and-removed one must not',
@@ -146,7 +232,8 @@ def merge_drop(ctx):
         name = inst + '/ours-only'
         ours = _ours_closures(facts, it, r)
         if not ours:
-            ctx.shape(name, body, 'no filter over self.%s deciding which of our entries survive' % r['entries'], props=props)
+            if not _ours_loop_form(ctx, facts, body, it, r, sub, name, props):
+                ctx.shape(name, body, 'no filter over self.%s deciding which of our entries survive' % r['entries'], props=props)
         for c, cb, mapping in ours:
             cit = interp(facts, cb)
             ctx.analysed.add(cb.key)
@@ -477,6 +564,18 @@ def map_reset_pair(ctx):
                         ok = True
         ctx.check(ok, 'merge/ours-only', cb, 'nested value reset with a clock derived from other.clock',
                   'our-only entry kept with a reduced clock but its nested value is not reset by what other has seen', line=cb.line)
+    if not _ours_closures(facts, it, r):
+        # loop form of the our-only branch
+        ok = False
+        ln = body.line
+        for bb, c2 in sorted(it.calls.items()):
+            if call_name(c2.term) == 'reset_remove' and len(c2.args) == 2:
+                ev = elem_value_of(c2.args[0].val)
+                if ev and tuple(ev[3]) == ('val',) and ev[1] == '*' and param_path(ev[0]) == (1, (r['entries'],)):
+                    if leaf_param(2, (r['clock'],))[1] in cleaves(cexpr(c2.args[1].val)):
+                        ok, ln = True, c2.line
+        ctx.check(ok, 'merge/ours-only', body, 'nested value reset with a clock derived from other.clock (loop form)',
+                  'our-only entry kept with a reduced clock but its nested value is not reset by what other has seen', line=ln)
     # theirs-only and both-present (main body)
     seen_t = seen_b = merged = False
     both_msg = None
